@@ -277,9 +277,9 @@ func (x Expr) Has(data any) bool {
 			if (di & descentFlag) == 0 {
 				switch tv := prev.(type) {
 				case map[string]any:
-					// Put prev back and slide fi.
-					stack[len(stack)-1] = prev
-					stack = append(stack, di|descentFlag)
+					// Put prev back under a frame of its own; the frame it came with
+					// may still serve siblings below it.
+					stack = append(stack, prev, di|descentFlag)
 					if int(fi) == len(x)-1 { // last one
 						if 0 < len(tv) {
 							return true
@@ -303,9 +303,9 @@ func (x Expr) Has(data any) bool {
 						}
 					}
 				case []any:
-					// Put prev back and slide fi.
-					stack[len(stack)-1] = prev
-					stack = append(stack, di|descentFlag)
+					// Put prev back under a frame of its own; the frame it came with
+					// may still serve siblings below it.
+					stack = append(stack, prev, di|descentFlag)
 					if int(fi) == len(x)-1 { // last one
 						if 0 < len(tv) {
 							return true
@@ -331,9 +331,9 @@ func (x Expr) Has(data any) bool {
 					}
 				case Keyed:
 					keys := tv.Keys()
-					// Put prev back and slide fi.
-					stack[len(stack)-1] = prev
-					stack = append(stack, di|descentFlag)
+					// Put prev back under a frame of its own; the frame it came with
+					// may still serve siblings below it.
+					stack = append(stack, prev, di|descentFlag)
 					if int(fi) == len(x)-1 { // last one
 						if 0 < len(keys) {
 							return true
@@ -359,9 +359,9 @@ func (x Expr) Has(data any) bool {
 					}
 				case Indexed:
 					size := tv.Size()
-					// Put prev back and slide fi.
-					stack[len(stack)-1] = prev
-					stack = append(stack, di|descentFlag)
+					// Put prev back under a frame of its own; the frame it came with
+					// may still serve siblings below it.
+					stack = append(stack, prev, di|descentFlag)
 					if int(fi) == len(x)-1 { // last one
 						if 0 < size {
 							return true
@@ -386,9 +386,9 @@ func (x Expr) Has(data any) bool {
 						}
 					}
 				case gen.Object:
-					// Put prev back and slide fi.
-					stack[len(stack)-1] = prev
-					stack = append(stack, di|descentFlag)
+					// Put prev back under a frame of its own; the frame it came with
+					// may still serve siblings below it.
+					stack = append(stack, prev, di|descentFlag)
 					if int(fi) == len(x)-1 { // last one
 						if 0 < len(tv) {
 							return true
@@ -402,9 +402,9 @@ func (x Expr) Has(data any) bool {
 						}
 					}
 				case gen.Array:
-					// Put prev back and slide fi.
-					stack[len(stack)-1] = prev
-					stack = append(stack, di|descentFlag)
+					// Put prev back under a frame of its own; the frame it came with
+					// may still serve siblings below it.
+					stack = append(stack, prev, di|descentFlag)
 					if int(fi) == len(x)-1 { // last one
 						if 0 < len(tv) {
 							return true
